@@ -1011,10 +1011,13 @@ def run(ctx: core.Ctx):
     from harness.translate import tarith
 
     errs = tarith.write({"prob_to_bayes_factor", "bayes_factor_to_prob"})  # C03.start_prior_translated is about the translated helpers
+    from harness.translate import tsql
+
+    sql_errs = tsql.run_isolated("em")  # Generated/EMSql.lean: the M-step SQL expectation_maximisation.py emits now, as Rel terms (T-sql)
     ctx.lean = core.lean_check(PROP, ctx.thorough)
-    if errs:
+    if errs or sql_errs:
         ctx.lean.ok = False
-        ctx.lean.problems += ["T-arith: " + e for e in errs]
+        ctx.lean.problems += ["T-arith: " + e for e in errs] + ["T-sql: " + e for e in sql_errs]
     drv = core.Driver()
     if ctx.replay:
         cases = [json.loads(open(ctx.replay).read())["replay"]["case"]]
